@@ -18,6 +18,7 @@ from mc.engine import ok, bad, unspecified
 from mc.common import call, Raised, DimArray, py, same_scalar
 
 ID = "C08"
+VARIANT_SWEEP = True      # thorough tier: every case on every history variant of its array (see mc/domains.py VSHIFT)
 TITLE = "reductions equal NumPy's along the named axis"
 RULE = ("product of (float/int/bool arrays 1-4D, every shape with sizes 1-3 [1-4 thorough for <=3D], axes of distinct kinds, NaN "
         "patterns none / one cell / one whole slice per axis / all) x 11 reductions + percentile x axis in {None, every "
